@@ -66,6 +66,10 @@ def _try(fn):
             warnings.simplefilter("ignore")
             return fn(), None
     except Exception as e:
+        from drv_solve import HarnessError, raised_by_harness
+        if isinstance(e, HarnessError) or raised_by_harness(e):
+            # canonicalising a report is the harness' business: an error there is a machinery failure, not "the report raised"
+            raise HarnessError("%s: %s" % (type(e).__name__, e)) from e
         return None, type(e).__name__
 
 
@@ -158,8 +162,8 @@ def _cellrec(v):
     """one cell of a parameter report as a tagged record"""
     import numpy as np
     from decwire import cell
-    if v is None or (isinstance(v, str) and v == ""):
-        return {"k": "blank", "v": [2, 0], "l": []}
+    if v is None or (isinstance(v, str) and v == "") or (isinstance(v, (float, np.floating)) and v != v):
+        return {"k": "blank", "v": [2, 0], "l": []}          # (an empty cell: "", None, or pandas' NaN)
     if isinstance(v, (bool, np.bool_)):
         return {"k": "b", "v": [1, 0] if v else [0, 0], "l": []}
     if isinstance(v, str):
@@ -205,11 +209,22 @@ def phases_wire(df):
     if df is None:
         return {"isnone": True, "hasdomain": False, "rows": []}
     rows = []
+    # columns are recognised by the word they start with (the unit text is not part of any statement)
+    col = {}
+    for want in ("Component", "Type", "Domain", "rs", "ii", "pwr"):
+        hit = [c for c in df.columns if str(c).split()[0] == want]
+        if len(hit) == 1:
+            col[want] = hit[0]
+    ph = [c for c in df.columns if "phase" in str(c).lower()]
+    if len(ph) != 1 or any(k not in col for k in ("Component", "Type", "rs", "ii", "pwr")):
+        from drv_solve import HarnessError
+        raise HarnessError("phases(): columns not recognised: %r" % (list(df.columns),))
     for rec in df.to_dict("records"):
-        rows.append({"comp": str(rec["Component"]), "type": str(rec["Type"]), "domain": str(rec.get("Domain", "")),
-                     "phase": str(rec["Active phase"]), "rs": _cellrec(rec["rs (Ohm)"]), "ii": _cellrec(rec["ii (A)"]),
-                     "pwr": _cellrec(rec["pwr (W)"])})
-    return {"isnone": False, "hasdomain": "Domain" in df.columns, "rows": rows}
+        rows.append({"comp": str(rec[col["Component"]]), "type": str(rec[col["Type"]]),
+                     "domain": str(rec[col["Domain"]]) if "Domain" in col else "",
+                     "phase": str(rec[ph[0]]), "rs": _cellrec(rec[col["rs"]]), "ii": _cellrec(rec[col["ii"]]),
+                     "pwr": _cellrec(rec[col["pwr"]])})
+    return {"isnone": False, "hasdomain": "Domain" in col, "rows": rows}
 
 
 def tree_wire(s, name=""):
@@ -261,12 +276,14 @@ def savedoc_wire(s):
         for parent, kids in sec.get("childs", {}).items():
             for e in kids:
                 entry(e, [parent])
+    # (the rail / group / phase tables are optional for from_file: a missing table or entry means "none")
+    rails, groups, pconf = sysd.get("rails", {}), sysd.get("groups", {}), sysd.get("phase_conf", {})
     for c in comps:
-        c["rail"] = sysd["rails"].get(c["name"], "<missing>")
-        c["group"] = sysd["groups"].get(c["name"], "<missing>")
-        c["pconf"] = conf_wire(sysd["phase_conf"].get(c["name"], "<missing>"))
-    keys = sorted(set(sysd["rails"]) | set(sysd["groups"]) | set(sysd["phase_conf"]))
-    return {"isnone": False, "sysname": sysd["name"], "sysph": [{"name": str(k), "dur": cell(v)} for k, v in sysd["phases"].items()],
+        c["rail"] = rails.get(c["name"], "")
+        c["group"] = groups.get(c["name"], "")
+        c["pconf"] = conf_wire(pconf.get(c["name"], {}))
+    keys = sorted(set(rails) | set(groups) | set(pconf))
+    return {"isnone": False, "sysname": sysd["name"], "sysph": [{"name": str(k), "dur": cell(v)} for k, v in sysd.get("phases", {}).items()],
             "comps": comps, "tablekeys": keys}
 
 
@@ -282,6 +299,10 @@ def report_case(s, cid, what):
                 warnings.simplefilter("ignore")
                 case[key] = fn()
         except Exception as e:
+            from drv_solve import HarnessError, raised_by_harness
+            if isinstance(e, HarnessError) or raised_by_harness(e):
+                # reading a report is the harness' business: an error there is a machinery failure, not "the report raised"
+                raise HarnessError("%s: %s: %s" % (key, type(e).__name__, e)) from e
             case[key] = dflt
             case["exc"] += "%s:%s " % (key, type(e).__name__)
     get("params", lambda: params_wire(s.params(limits=True)), [])
